@@ -43,6 +43,26 @@ func c18Pat(rr *rand.Rand) string {
 	}
 }
 
+// keys of match conditions are mostly names the generated rules really carry, so that the condition is reached
+func c18Key(rr *rand.Rand, real []string) string {
+	if rr.Intn(3) != 0 {
+		return hx.Pick(rr, real)
+	}
+	return c18Pat(rr)
+}
+
+// values of match conditions: mostly match-anything, sometimes any pattern (invalid ones included)
+func c18Val(rr *rand.Rand) string {
+	switch rr.Intn(4) {
+	case 0:
+		return ".*"
+	case 1:
+		return hx.Pick(rr, c18Patterns[7:15]) // invalid regexp
+	default:
+		return c18Pat(rr)
+	}
+}
+
 func c18Dur(rr *rand.Rand) string {
 	if rr.Intn(10) != 0 {
 		return hx.Pick(rr, []string{"5m", "1h", "30s", "1d"})
@@ -60,8 +80,8 @@ func c18Sev(rr *rand.Rand) string {
 func c18Match(rr *rand.Rand, kw string) string {
 	var sb strings.Builder
 	sb.WriteString("  " + kw + " {\n")
-	for i, n := 0, 1+rr.Intn(3); i < n; i++ {
-		switch rr.Intn(9) {
+	for i, n := 0, 1+rr.Intn(4); i < n; i++ {
+		switch hx.Pick(rr, []int{0, 1, 2, 3, 4, 4, 4, 5, 5, 5, 6, 7, 8}) {
 		case 0:
 			fmt.Fprintf(&sb, "    name = \"%s\"\n", c18Pat(rr))
 		case 1:
@@ -71,9 +91,9 @@ func c18Match(rr *rand.Rand, kw string) string {
 		case 3:
 			fmt.Fprintf(&sb, "    command = \"%s\"\n", hx.Pick(rr, []string{"lint", "ci", "watch", "lint", "lint", "nope"}))
 		case 4:
-			fmt.Fprintf(&sb, "    label \"%s\" {\n      value = \"%s\"\n    }\n", c18Pat(rr), c18Pat(rr))
+			fmt.Fprintf(&sb, "    label \"%s\" {\n      value = \"%s\"\n    }\n", c18Key(rr, []string{"team", "severity", "job"}), c18Val(rr))
 		case 5:
-			fmt.Fprintf(&sb, "    annotation \"%s\" {\n      value = \"%s\"\n    }\n", c18Pat(rr), c18Pat(rr))
+			fmt.Fprintf(&sb, "    annotation \"%s\" {\n      value = \"%s\"\n    }\n", c18Key(rr, []string{"summary", "link"}), c18Val(rr))
 		case 6:
 			fmt.Fprintf(&sb, "    for = \"%s\"\n", hx.Pick(rr, []string{"> 5m", "< 1h", ">= 0s", "!= 1m", "> 1m", "< 2h", "abc", "> abc", "5m", ""}))
 		case 7:
@@ -128,7 +148,7 @@ func c18Config(rr *rand.Rand) string {
 			case 7:
 				fmt.Fprintf(&sb, "  keep_firing_for {\n    min = \"%s\"\n    max = \"%s\"\n  }\n", c18Dur(rr), c18Dur(rr))
 			case 8:
-				fmt.Fprintf(&sb, "  link \"%s\" {\n    uri = \"%s\"\n    timeout = \"%s\"\n  }\n", c18Pat(rr), hx.Pick(rr, []string{"http://127.0.0.1:1/$1", "$1", "", "{{ $alert }}"}), c18Dur(rr))
+				fmt.Fprintf(&sb, "  link \"%s\" {\n    uri = \"%s\"\n    timeout = \"%s\"\n  }\n", c18Pat(rr), hx.Pick(rr, []string{"http://127.0.0.1:1/$1", "$1", "", "{{ $alert }}", "%zz", "http://[::1", "http://127.0.0.1:1/%zz$1"}), c18Dur(rr))
 			case 9:
 				fmt.Fprintf(&sb, "  range_query {\n    max = \"%s\"\n    severity = \"%s\"\n  }\n", c18Dur(rr), c18Sev(rr))
 			case 10:
@@ -181,6 +201,21 @@ func c18Eval(r *hx.Run, cs c18Case, dir string) {
 		r.Violate(hx.Violation{Class: "accepted-config-panics:" + c02Site(res.Panic), Known: true, Input: cs, Observed: tail(res.Panic, 2000),
 			Expected: "config.Load error, or a lint run without a crash"})
 		return
+	}
+	if !strings.Contains(cs.Config, "prometheus \"") {
+		// without a Prometheus server the online checks that need none (rule/link) also run in a plain `pint lint`;
+		// link targets are on a closed local port, so requests fail at once
+		o2 := pipe.Options{Strict: cs.Strict}
+		cfg2, err2 := pipe.LoadConfig(dir, cs.Config)
+		if err2 == nil {
+			res2 := pipe.Lint(cfg2, "rules/r.yml", []byte(cs.Rules), o2)
+			r.Count("online-lint-run")
+			if res2.Panic != "" {
+				r.Violate(hx.Violation{Class: "accepted-config-panics:" + c02Site(res2.Panic), Known: true, Input: cs, Observed: tail(res2.Panic, 2000),
+					Expected: "config.Load error, or a lint run without a crash (online checks enabled)"})
+				return
+			}
+		}
 	}
 	r.Count(fmt.Sprintf("reports:%d", min(len(res.Reports), 5)))
 	if len(cs.Config) < 400 {
